@@ -188,6 +188,9 @@ def run_check(prop, tier, seed, spec, work, t0):
     pkgs = sorted({j["pkg"] for j in jobs} | set(spec.get("extra_pkgs", [])))
     dep_ov = {v: os.path.join(VERIF, r) for v, r in spec.get("dep_overlays", {}).items()}
     sym_ov, nat_ov = build_overlays(work, pkgs, dep_ov)
+    for v, r in spec.get("sym_overlays", {}).items():
+        sym_ov[v] = os.path.join(VERIF, r)
+    skip_native = set(spec.get("no_native_entries", []))
     espec = {
         "repo": REPO, "tags": "verif", "overlay": sym_ov, "jobs": jobs,
         "workers": int(os.environ.get("VERIF_WORKERS", "0") or 0) or (os.cpu_count() or 4),
@@ -228,7 +231,13 @@ def run_check(prop, tier, seed, spec, work, t0):
             inconclusive.append(f"{entry}: solver returned unknown/error on {so['Unknown']}+{so['Errors']} queries")
         per_entry.append({"entry": entry, "paths": s["Paths"], "ok": s["OK"], "violating_paths": len(s["Violations"] or []),
                           "asserts": s["Asserts"], "queries": so["Queries"], "wall_s": round(s["WallS"], 2)})
+        if entry in skip_native:
+            continue_native = False
+        else:
+            continue_native = True
         for k, w in enumerate(s["Witnesses"] or []):
+            if not continue_native:
+                break
             cid = f"{entry}#w{k}"
             cases_by_pkg.setdefault(r["pkg"], []).append(case_of(r["pkg"], entry, w, cid))
             expect[cid] = ("pass", obs_of(w), r["pkg"], entry, w)
@@ -238,7 +247,9 @@ def run_check(prop, tier, seed, spec, work, t0):
                 viol_by_key[key]["count"] += 1
                 continue
             cid = f"{entry}#v{len(viol_by_key)}"
-            viol_by_key[key] = {"key": key, "count": 1, "v": v, "cid": cid, "pkg": r["pkg"], "entry": entry}
+            viol_by_key[key] = {"key": key, "count": 1, "v": v, "cid": cid, "pkg": r["pkg"], "entry": entry, "no_native": not continue_native}
+            if not continue_native:
+                continue
             cases_by_pkg.setdefault(r["pkg"], []).append(case_of(r["pkg"], entry, v["Witness"], cid))
             expect[cid] = (v["Witness"].get("Expect", "?"), obs_of(v["Witness"]), r["pkg"], entry, v["Witness"])
 
@@ -304,7 +315,7 @@ def run_check(prop, tier, seed, spec, work, t0):
     rdir = os.path.join(VERIF, "replay", prop)
     os.makedirs(rdir, exist_ok=True)
     for key, rec in sorted(viol_by_key.items()):
-        if rec["cid"] not in confirmed and not spec.get("no_native"):
+        if rec["cid"] not in confirmed and not spec.get("no_native") and not rec.get("no_native"):
             continue
         if key in open_keys:
             lines.append(f"KNOWN-FINDING: property={prop} {open_keys[key]['what']} [{key}]")
